@@ -33,6 +33,38 @@ def r1(ctx, rule="C16.R1", only=None):
             ct = tables.call_table(t, types)
             if ct and ct[1] in ("remove", "remove_all", "retain", "retain_in", "extract_if", "extract_from_if", "drain"):
                 cleared.setdefault(ct[0], []).append((b, bi, t))
+    # redb's extract_if / extract_from_if are lazy: rows are removed only as the iterator is consumed
+    from .common import uses_of_local
+    for name, sites in list(cleared.items()):
+        live = []
+        for b, bi, t in sites:
+            if t["f"].get("name") in ("extract_if", "extract_from_if"):
+                consumed = False
+                # follow the result through `?` into a consuming call
+                frontier = [t["d"]["l"]]
+                seen = set()
+                while frontier:
+                    l = frontier.pop()
+                    if l in seen:
+                        continue
+                    seen.add(l)
+                    for ubi, usi, u in uses_of_local(b, l):
+                        if usi == "t" and u["k"] == "call":
+                            n = u["f"].get("name")
+                            if n in ("count", "for_each", "collect", "last", "fold", "next", "into_iter", "try_for_each", "sum", "max", "min", "all", "any"):
+                                consumed = True
+                            elif n in ("branch", "unwrap", "expect", "map_err", "into", "from"):
+                                frontier.append(u["d"]["l"])
+                        elif usi != "t" and u["k"] == "assign" and not u["p"]["p"]:
+                            frontier.append(u["p"]["l"])
+                if not consumed:
+                    ctx.note("lazy extraction on `%s` at %s is never drained" % (name, t["sp"]))
+                    continue
+            live.append((b, bi, t))
+        if live:
+            cleared[name] = live
+        else:
+            del cleared[name]
     for name in types:
         if only and name not in only:
             continue
